@@ -49,6 +49,8 @@ def rconst(rng):
         return N(n, d)
     if r < 0.78:
         return B(rng.random() < 0.5)
+    if r < 0.82:
+        return {'t': 'err', 'v': rng.choice(['#N/A', '#DIV/0!', '#VALUE!'])}
     return T(rng.choice(TEXTS))
 
 
@@ -112,6 +114,8 @@ class Gen:
                 return S.num(xl.fmt_rational(abs(c['n']), c['d'])) if c['n'] >= 0 else S.neg(S.num(xl.fmt_rational(-c['n'], c['d'])))
             if c['t'] == 'bool':
                 return {'k': 'bool', 'v': c['v']}
+            if c['t'] == 'err':
+                return {'k': 'err', 'v': c['v']}
             return S.strlit(xl.text_of(c))
         if r < 0.62:
             op = rng.choice(['+', '+', '-', '*', '&', '=', '<', '>=', '<>', '/'])
@@ -138,8 +142,34 @@ class Gen:
             if f < 0.8:
                 return S.call(rng.choice(['AND', 'OR']), [cond, S.bin_('>', self.any_ref(home), S.num('0'))])
             return S.call('NOT', [cond])
-        f = rng.choice(['LEN', 'UPPER', 'ISNUMBER', 'ISTEXT', 'ISBLANK', 'ISERROR', 'LEFT', 'CONCAT', 'EXACT'])
+        f = rng.choice(['LEN', 'UPPER', 'ISNUMBER', 'ISTEXT', 'ISBLANK', 'ISERROR', 'LEFT', 'CONCAT', 'EXACT',
+                        'LOWER', 'TRIM', 'MID', 'RIGHT', 'ISNA', 'CHOOSE', 'COUNTIF', 'MATCH', 'NEG', 'PCT', 'ERRLIT', 'NA'])
         x = self.any_ref(home)
+        if f == 'NEG':
+            return S.neg(x)
+        if f == 'PCT':
+            return S.bin_('*', x, S.num(rng.choice(['50%', '200%', '2.5%'])))
+        if f == 'ERRLIT':
+            return S.bin_(rng.choice(['+', '&', '=']), x, {'k': 'err', 'v': rng.choice(['#N/A', '#DIV/0!', '#REF!'])})
+        if f == 'NA':
+            return S.call('IF', [S.bin_('>', x, S.num('1')), S.call('NA', []), x])
+        if f == 'MID':
+            return S.call(f, [x, S.num(str(rng.randint(0, 3))), S.num(str(rng.randint(0, 3)))])
+        if f == 'RIGHT':
+            return S.call(f, [x, S.num(str(rng.randint(0, 3)))])
+        if f == 'CHOOSE':
+            return S.call(f, [self.any_ref(home), self.expr(home, own, depth + 1), self.any_ref(home), S.strlit('c')])
+        if f in ('COUNTIF', 'MATCH'):
+            for _ in range(5):
+                a, sh = self.range_on(home)
+                if f == 'MATCH':
+                    a['c2'] = a['c1']
+                if self.range_ok(a, sh, own):
+                    if f == 'COUNTIF':
+                        crit = rng.choice([S.strlit('>0'), S.strlit('<>ab'), S.strlit('ab'), S.num('1'), S.strlit('<=2'), x])
+                        return S.call(f, [a, crit])
+                    return S.call(f, [x, a, S.num('0')])
+            return x
         if f == 'LEFT':
             return S.call(f, [x, S.num(str(rng.randint(0, 3)))])
         if f == 'CONCAT':
